@@ -38,6 +38,15 @@ def check_cached_fields(res, E, fields):
 
 def run(res, tier):
     E = mprop.engine(res)
+    fields = check_newer(res, E)
+    check_cached_fields(res, E, fields)
+    mprop.finish_engine(res, E)
+
+
+def check_newer(res, E, only_reject=False):
+    """check_collected_is_newer against its specification; only_reject: just obligation 3 (the stored point is
+    rejected only when it is inconsistent) - C04 relies on it: nothing else may destroy the stored version before
+    an update has completed."""
     body = E.prog.find("src/engine.rs", "PubPoint", "check_collected_is_newer")
     fields = mir.struct_fields("StoredManifest", "src/store.rs")
     i_num = fields.index("manifest_number")
@@ -136,7 +145,7 @@ def run(res, tier):
         returned_false = z3.And(d == 0, z3.Not(v)) if v is not None else z3.BoolVal(False)
         # obligation 1: Ok(true) => none | strictly newer | stored copy inconsistent (and rejected)
         bad = z3.And(returned_true, z3.Not(z3.Or(stored_none, newer, inconsistent)))
-        m = E.model(p.cond, bad)
+        m = E.model(p.cond, bad) if not only_reject else None
         if m is not None:
             fn = mprop.write_cex(res, "accepts_not_newer_%d" % n, p, E,
                                  "check_collected_is_newer returns Ok(true) although the stored manifest exists, "
@@ -144,7 +153,7 @@ def run(res, tier):
             res.violation("mir:accepts-not-newer", "Ok(true) for a collected manifest that is not strictly newer "
                           "than a consistent stored one (MIR path)", fn)
         # obligation 2: a strictly newer manifest is not refused (Ok(false))
-        if num_c is not None and num_s is not None and time_c is not None and time_s is not None:
+        if not only_reject and num_c is not None and num_s is not None and time_c is not None and time_s is not None:
             m = E.model(p.cond, z3.And(returned_false, newer))
             if m is not None:
                 fn = mprop.write_cex(res, "refuses_newer_%d" % n, p, E,
@@ -166,11 +175,11 @@ def run(res, tier):
         res.samples.append(mprop.path_sample(p))
     if n_true == 0 or n_false == 0:
         res.inconclusive.append("vacuity: paths returning Ok(true)=%d, Ok(false)=%d" % (n_true, n_false))
-    check_cached_fields(res, E, fields)
     res.extra["paths"] = len(paths)
     res.extra["paths_ok_true"] = n_true
     res.extra["paths_ok_false"] = n_false
-    res.rule = ("one case = one feasible MIR path of check_collected_is_newer (path condition satisfiable); "
-                "for each, three z3 queries (accept-implies-newer, newer-not-refused, reject-implies-inconsistent); "
-                "evaluations = z3 queries including feasibility checks")
-    mprop.finish_engine(res, E)
+    if not only_reject:
+        res.rule = ("one case = one feasible MIR path of check_collected_is_newer (path condition satisfiable); "
+                    "for each, three z3 queries (accept-implies-newer, newer-not-refused, reject-implies-inconsistent); "
+                    "evaluations = z3 queries including feasibility checks")
+    return fields
